@@ -27,6 +27,15 @@ structure Frame (h h' : H) : Prop where
 
 theorem Frame.refl (h : H) : Frame h h := ⟨rfl, rfl, rfl, rfl, rfl, rfl, Nat.le_refl _, rfl, ⟨0, rfl⟩, id⟩
 
+theorem enterReadData_data (h : H) (hs : h.state = .data) : enterReadData h = h := by
+  simp [enterReadData, hs]
+
+theorem enterReadData_frame (h : H) : Frame h (enterReadData h) := by
+  unfold enterReadData
+  split
+  · exact ⟨rfl, rfl, rfl, rfl, rfl, rfl, Nat.le_refl _, rfl, ⟨0, rfl⟩, id⟩
+  · exact ⟨rfl, rfl, rfl, rfl, rfl, rfl, Nat.le_refl _, rfl, ⟨0, rfl⟩, id⟩
+
 theorem Frame.trans {a b c : H} (x : Frame a b) (y : Frame b c) : Frame a c :=
   ⟨y.term.trans x.term, y.hook.trans x.hook, y.entries.trans x.entries, y.nread.trans x.nread,
    y.fileCount.trans x.fileCount, y.entryObj.trans x.entryObj, Nat.le_trans y.evs_le x.evs_le,
